@@ -144,55 +144,7 @@ impl File {
 
 pub fn min(a: usize, b: usize) -> (r: usize) ensures r == if a <= b { a } else { b } { if a <= b { a } else { b } }
 
-// ================================================================ time shims
-#[derive(Clone, Copy)]
-pub struct Duration { pub ns: u128 }
-#[derive(Clone, Copy)]
-pub struct Instant { pub t: u128 }
-impl SubSpecImpl<Instant> for Instant {
-    open spec fn obeys_sub_spec() -> bool { true }
-    open spec fn sub_req(self, rhs: Instant) -> bool { self.t >= rhs.t }
-    open spec fn sub_spec(self, rhs: Instant) -> Duration { Duration { ns: (self.t - rhs.t) as u128 } }
-}
-impl core::ops::Sub<Instant> for Instant {
-    type Output = Duration;
-    fn sub(self, rhs: Instant) -> Duration { Duration { ns: self.t - rhs.t } }
-}
-impl PartialEqSpecImpl for Instant {
-    open spec fn obeys_eq_spec() -> bool { true }
-    open spec fn eq_spec(&self, other: &Instant) -> bool { self.t == other.t }
-}
-impl core::cmp::PartialEq for Instant { fn eq(&self, other: &Instant) -> bool { self.t == other.t } }
-impl PartialOrdSpecImpl for Instant {
-    open spec fn obeys_partial_cmp_spec() -> bool { true }
-    open spec fn partial_cmp_spec(&self, other: &Instant) -> Option<core::cmp::Ordering> {
-        if self.t < other.t { Some(core::cmp::Ordering::Less) } else if self.t == other.t { Some(core::cmp::Ordering::Equal) } else { Some(core::cmp::Ordering::Greater) }
-    }
-}
-impl core::cmp::PartialOrd for Instant {
-    fn partial_cmp(&self, other: &Instant) -> Option<core::cmp::Ordering> {
-        if self.t < other.t { Some(core::cmp::Ordering::Less) } else if self.t == other.t { Some(core::cmp::Ordering::Equal) } else { Some(core::cmp::Ordering::Greater) }
-    }
-}
-impl Duration {
-    pub fn from_secs(s: u64) -> (d: Duration) ensures d.ns == s * 1_000_000_000 { Duration { ns: s as u128 * 1_000_000_000 } }
-    pub fn as_millis(&self) -> (r: u128) ensures r == self.ns / 1_000_000 { self.ns / 1_000_000 }
-}
-impl AddSpecImpl<Duration> for Instant {
-    open spec fn obeys_add_spec() -> bool { true }
-    open spec fn add_req(self, rhs: Duration) -> bool { self.t + rhs.ns <= u128::MAX }   // std panics on overflow
-    open spec fn add_spec(self, rhs: Duration) -> Instant { Instant { t: (self.t + rhs.ns) as u128 } }
-}
-impl core::ops::Add<Duration> for Instant {
-    type Output = Instant;
-    fn add(self, rhs: Duration) -> Instant { Instant { t: self.t + rhs.ns } }
-}
-impl Instant {
-    #[verifier::external_body]
-    pub fn now(Tracked(w): Tracked<&World>) -> (r: Instant) ensures r.t == w.s.now { unimplemented!() }
-}
-pub open spec fn floor_ms_ns(d: Duration) -> nat { ((d.ns as nat) / 1_000_000) * 1_000_000 }
-
+//@include time.rs
 // ================================================================ posix.rs seam: contracts discharged separately against the libc model
 pub mod posix {
     use vstd::prelude::*;
